@@ -103,6 +103,14 @@ claim("C15", "other",
       "symbolic execution of the real Op/OpSum code on z3-valued factors + z3",
       "DESIGN.md section 1, C15")
 
+claim("C14", "other",
+      "(a) The real TdMpsJob.dump_dict against a model file system with solver-chosen crash instant and solver-chosen pre-state of the directory (result file and backup "
+      "absent/partial/complete, constrained only by 'a complete file exists'): inductive over histories incl. restarts into a crashed directory. (b) dump->load of "
+      "Mps/MpDm/Mpo/MatrixProduct through an in-memory savez/load with symbolic tensors, labels, centre, direction, prefactor; old format versions.",
+      "savez modelled as create/partial/complete; rename/remove/replace atomic; NumPy serialisation itself and the spill-to-disk path are not covered.",
+      "symbolic execution against a model file system (crash point and directory state as solver integers) + in-memory store round trip",
+      "DESIGN.md section 1, C14")
+
 for pid in ["C%02d" % i for i in range(1, 21)]:
     if pid not in CHECKS:
         NA[pid] = "check not built yet (build in progress; see DESIGN.md)"
